@@ -1,7 +1,7 @@
 (* C02 -- every selected test runs exactly once per repetition; selection follows the filters; reversing and shuffling
    only permute the order.  Only statements; every proof is `exact <lemma>` into C02_Proofs.v. *)
 From Coq Require Import NArith Arith Bool List Permutation.
-From CppUVerif Require Import lib.Str lib.CSem gen.Gen_LeafC02 C02_Model C02_Proofs.
+From CppUVerif Require Import lib.Str lib.CSem gen.Gen_LeafC02 C02_Model C02_Proofs C02_Sessions.
 From CppUVerif Require C02_LeafTie.
 Import ListNotations.
 Local Open Scope N_scope.
@@ -20,13 +20,20 @@ Theorem C02_counts_identity : forall gf nf ri l,
 Proof. exact counts_identity. Qed.
 Print Assumptions C02_counts_identity.
 
-(* every repetition of every valid scenario: one observation per repetition, counters identity, order = permutation of the registered tests *)
+(* every run of every valid session: as many repetitions as the run asks for (none when it only lists); in each repetition
+   tests = number of registered tests = run + ignored + filtered, the order is a permutation of the registered tests, the filtered-out
+   counter counts the tests the run's OWN filters refuse and a test is started exactly once iff the run's OWN filters select it *)
 Theorem C02_counts_every_repetition : forall s, valid s = true ->
-  length (o_reps (run s)) = s_repeat s /\
-  forall r, In r (o_reps (run s)) ->
-    c_tests (r_cnt r) = N.of_nat (length (s_tests s)) /\ c_tests (r_cnt r) = c_run (r_cnt r) + c_ign (r_cnt r) + c_filt (r_cnt r)
-    /\ Permutation (r_order r) (seq 0 (length (s_tests s))).
-Proof. exact run_counts_identity. Qed.
+  Forall2 (fun c reps =>
+             length reps = (if u_list c =? 0 then u_repeat c else 0%nat) /\
+             forall r, In r reps ->
+               c_tests (r_cnt r) = N.of_nat (length (s_tests s))
+               /\ c_tests (r_cnt r) = c_run (r_cnt r) + c_ign (r_cnt r) + c_filt (r_cnt r)
+               /\ Permutation (r_order r) (seq 0 (length (s_tests s)))
+               /\ c_filt (r_cnt r) = count_if (fun t => negb (own_selected c t)) (s_tests s)
+               /\ forall t, In t (s_tests s) -> occurrences (ETestStarted (t_id t)) (r_word r) = b2n (own_selected c t))
+          (runs_of s) (o_runs (run s)).
+Proof. exact session_counts. Qed.
 Print Assumptions C02_counts_every_repetition.
 
 (* for any order in which every test occurs once: a selected test is started exactly once, its body runs exactly once unless it is
@@ -342,7 +349,7 @@ Theorem C02_src_runAllTests_meets_C02 :
   forall (s : scenario) (reg : list test) (gcode : list N -> Z) (fuel : nat) (h : heap)
   (rb : nat) (bs : list nat) (plug : Z) (sep : bool) (rep : Z) (evs0 : list rev) (rest : list Z)
   (seeds drawn : list N),
-  valid s = true ->
+  valid1 s = true ->
   Permutation reg (s_tests s) ->
   (s_shuffle s = false -> map t_id reg = expected_order s) ->
   reg_at h rb bs reg gcode plug sep (s_ri s) rep ->
@@ -413,3 +420,82 @@ Theorem C02_ex_run_by_theorem :
   evs0 ++ rev_all [] ex_nf false (Zpos 77) [1%nat; 2%nat; 3%nat] ex_ts, rest).
 Proof. exact ex_run_by_theorem. Qed.
 Print Assumptions C02_ex_run_by_theorem.
+
+(* ================================================================== sessions: several runs on ONE registry (C02_Sessions.v)
+   The state between runs carries the registry's list order, its groupFilters_ / nameFilters_ fields and the runIgnored_ switch;
+   a stale filter is therefore expressible, and the theorems below say it never matters. *)
+
+(* from ANY state -- whatever filters an earlier run (or anybody) left on the registry, whatever the run-ignored switch and the
+   order are -- in every repetition of a run a registered test is started exactly once iff the run's OWN filters select it and
+   never otherwise; filtered-out = the tests the run's own filters refuse; tests = run + ignored + filtered = registered *)
+Theorem C02_selection_own_filters : forall st c reps st',
+  state_ok st -> forallb filter_ok (u_gf c) = true -> forallb filter_ok (u_nf c) = true ->
+  run_cfg st c = Some (reps, st') ->
+  forall r, In r reps ->
+    (forall t, In t (st_reg st) -> occurrences (ETestStarted (t_id t)) (r_word r) = b2n (own_selected c t))
+    /\ c_filt (r_cnt r) = count_if (fun t => negb (own_selected c t)) (st_reg st)
+    /\ c_tests (r_cnt r) = N.of_nat (length (st_reg st))
+    /\ c_tests (r_cnt r) = c_run (r_cnt r) + c_ign (r_cnt r) + c_filt (r_cnt r).
+Proof. exact selection_own_filters. Qed.
+Print Assumptions C02_selection_own_filters.
+
+(* no filter given -> every test selected, whatever the registry's filter fields held before the run *)
+Theorem C02_no_filters_select_all : forall st c reps st',
+  state_ok st -> u_gf c = [] -> u_nf c = [] -> run_cfg st c = Some (reps, st') ->
+  forall r, In r reps ->
+    (forall t, In t (st_reg st) -> occurrences (ETestStarted (t_id t)) (r_word r) = 1)
+    /\ c_filt (r_cnt r) = 0 /\ c_run (r_cnt r) + c_ign (r_cnt r) = N.of_nat (length (st_reg st)).
+Proof. exact no_filters_select_all. Qed.
+Print Assumptions C02_no_filters_select_all.
+
+(* filters of one kind only: the other kind does not restrict (group filters given but no name filter, and vice versa) *)
+Theorem C02_one_kind_only : forall st c reps st',
+  state_ok st -> forallb filter_ok (u_gf c) = true -> forallb filter_ok (u_nf c) = true ->
+  run_cfg st c = Some (reps, st') -> forall r, In r reps -> forall t, In t (st_reg st) ->
+    (u_nf c = [] -> occurrences (ETestStarted (t_id t)) (r_word r) = b2n (accepted (u_gf c) (t_group t)))
+    /\ (u_gf c = [] -> occurrences (ETestStarted (t_id t)) (r_word r) = b2n (accepted (u_nf c) (t_name t))).
+Proof. exact one_kind_only. Qed.
+Print Assumptions C02_one_kind_only.
+
+(* for ANY TWO histories of earlier runs (any filters, -ri, reversals, shuffles, repeats, listings, API or argv): the same run
+   started after either has the same number of repetitions, selects the same tests in each and filters out the same number *)
+Theorem C02_selection_history_independent : forall ts h1 h2 c st1 st2 reps1 reps2 st1' st2',
+  natlist_eqb (map t_id ts) (seq 0 (length ts)) = true -> forallb test_ok ts = true ->
+  forallb cfg_ok h1 = true -> forallb cfg_ok h2 = true -> cfg_ok c = true ->
+  state_after (st0 ts) h1 = Some st1 -> state_after (st0 ts) h2 = Some st2 ->
+  run_cfg st1 c = Some (reps1, st1') -> run_cfg st2 c = Some (reps2, st2') ->
+  length reps1 = length reps2
+  /\ forall r1 r2, In r1 reps1 -> In r2 reps2 ->
+       c_filt (r_cnt r1) = c_filt (r_cnt r2)
+       /\ forall t, In t ts -> occurrences (ETestStarted (t_id t)) (r_word r1) = occurrences (ETestStarted (t_id t)) (r_word r2).
+Proof. exact selection_history_independent. Qed.
+Print Assumptions C02_selection_history_independent.
+
+(* what any history leaves on the registry: every registered test exactly once in the list (nothing lost or duplicated over any
+   number of reversals and shuffles), run-ignored on iff some run asked for it, the filter fields = the LAST run's own lists *)
+Theorem C02_session_state : forall ts cs,
+  natlist_eqb (map t_id ts) (seq 0 (length ts)) = true -> forallb test_ok ts = true -> forallb cfg_ok cs = true ->
+  exists st, state_after (st0 ts) cs = Some st
+    /\ Permutation (st_reg st) ts /\ st_ri st = hist_ri cs
+    /\ st_gf st = last_gf (st0 ts) cs /\ st_nf st = last_nf (st0 ts) cs.
+Proof. exact session_state. Qed.
+Print Assumptions C02_session_state.
+
+(* a listing run (-lg / -ln / -ll) between runs: initializeTestRun and nothing else -- no repetition, the list untouched *)
+Theorem C02_listing_runs_nothing : forall st c,
+  u_list c <> 0 -> run_cfg st c = Some ([], install st c) /\ st_reg (install st c) = st_reg st.
+Proof. exact listing_runs_nothing. Qed.
+Print Assumptions C02_listing_runs_nothing.
+
+(* the runner that installs a filter list on the registry only when the command line gives one (so that the list of an earlier
+   run stays active) does NOT meet the oracle: run 1 `-sg Al`, run 2 without any filter option *)
+Theorem C02_keep_stale_filters_refuted : ~ (forall s, valid s = true -> spec s (run_with install_keep s) = true).
+Proof. exact keep_refuted. Qed.
+Print Assumptions C02_keep_stale_filters_refuted.
+
+(* ... nor with filters of one kind only in the second run (run 1 `-n o`, run 2 `-g l`), where the code's runner does *)
+Theorem C02_keep_stale_filters_refuted_one_kind :
+  valid ex_stale_name = true /\ spec ex_stale_name (run_with install_keep ex_stale_name) = false
+  /\ spec ex_stale_name (run ex_stale_name) = true.
+Proof. exact keep_refuted_one_kind. Qed.
+Print Assumptions C02_keep_stale_filters_refuted_one_kind.
